@@ -130,6 +130,8 @@ void own_test() {
   set_op_names(kOps, 3);
   const int T = (int)opt("T", 2), m = (int)opt("m", 2);
   const int prefill = (int)opt("prefill", 0);
+  // --opt rdom=k: utils::random() (the start slot inside a k-FIFO segment) is a recorded choice over [0,k); deviations from 0 are bounded by --r
+  set_rand_domain((int)opt("rdom", 1));
   hx::Program p = hx::choose_program(T, m, 2, T > 1);
   int pushes = 0;
   for (int t = 0; t < T; t++)
